@@ -223,6 +223,11 @@ func GenSProgram(t *rapid.T, cfg SGenCfg) SProgram {
 			p.Ops = append(p.Ops, o)
 		case "ctldelsnap":
 			p.Ops = append(p.Ops, SOp{K: "ctldelsnap", N: int64(rapid.IntRange(0, 7).Draw(t, "which"))})
+		case "iorace":
+			off := rapid.Int64Range(0, total-1).Draw(t, "off")
+			p.Ops = append(p.Ops, SOp{K: "iorace", Node: rapid.IntRange(0, nodes-1).Draw(t, "node"), Off: off / 8 * 8,
+				Len: 8 * rapid.Int64Range(1, 2).Draw(t, "len"), Seed: rapid.IntRange(1, 250).Draw(t, "seed"),
+				Str: rapid.SampledFrom([]string{"write", "write", "sync", "unmap"}).Draw(t, "second")})
 		case "snaprace":
 			off := rapid.Int64Range(0, total-1).Draw(t, "off")
 			p.Ops = append(p.Ops, SOp{K: "snaprace", Node: rapid.IntRange(0, nodes-1).Draw(t, "node"), Off: off,
